@@ -8,6 +8,7 @@ stuck : one destination path is locked (CloudTemporaryError for ever) or one cha
 single: (thorough) bounded enumeration: for generated fault-free histories EVERY engine call index x kind x phase
         is faulted once (fault_enumeration).
 """
+from .. import shims  # noqa: F401  (must precede any cloudsync import)
 import sys
 
 import cloudsync.exceptions as ex
